@@ -43,7 +43,8 @@ fn struct_err_tok(msg: &str) -> String {
 }
 
 fn enum_err_tok(msg: &str) -> String {
-    let table: [(&str, &str); 5] = [
+    let table: [(&str, &str); 6] = [
+        ("Alternatives must be numbers", "AltNotNumber"),
         ("Enums must have a #[repr()] attribute", "NoRepr"),
         ("usize and isize may not be used as enum repr", "UsizeRepr"),
         ("Catch all cannot have alternatives", "CatchAllAlternatives"),
